@@ -155,7 +155,7 @@ type run struct {
 	m        *Model
 	cur      *Conn // connection the oracle is currently judging
 
-	malformedAccepted bool
+	malformedAccepted string // defect class of the first malformed CONNECT that was accepted
 }
 
 var provCounter uint64
